@@ -18,6 +18,7 @@ PLAN = dict(
                det("l1-mailbox", L1, "cs-rel", 4, 250, 6, tso=True, time_cap=20, optional=True, case_prefix="mbox "),
                det("l1-slot", L1S, "cs-rel", 8, 250, 6, tso=True, time_cap=25, optional=True, case_prefix="slot "),
                det("l1-slot-dbg", L1S, "cs-dbg", 4, 120, 6, tso=True, time_cap=25, optional=True, case_prefix="slot "),
+               cmd("many-groups", "harness/c01_manygroups_rc.cpp", "plain", 2, ["150"], link_tbb=True, ldflags=["-lrapidcheck"], replay_tag="manygroups-"),
                tsan("C01", 8, 240)],
         thorough=[det("rel", H, "cs-rel", 16, 1200, 5, tso=True, time_cap=300),
                   det("dbg", H, "cs-dbg", 16, 300, 5, tso=True, time_cap=200, args=["--no-soft0"]),
@@ -26,11 +27,12 @@ PLAN = dict(
                det("l1-mailbox", L1, "cs-rel", 16, 3000, 8, tso=True, time_cap=120, optional=True, case_prefix="mbox "),
                det("l1-slot", L1S, "cs-rel", 16, 4000, 8, tso=True, time_cap=180, optional=True, case_prefix="slot "),
                det("l1-slot-dbg", L1S, "cs-dbg", 16, 1500, 8, tso=True, time_cap=180, optional=True, case_prefix="slot "),
+               cmd("many-groups", "harness/c01_manygroups_rc.cpp", "plain", 8, ["3000"], link_tbb=True, ldflags=["-lrapidcheck"], replay_tag="manygroups-"),
                tsan("C01", 16, 600)],
     ),
 )
 TEXT = dict(
-    technique="property-based testing: generated task-tree programs x generated schedules over the real scheduler (controlled scheduler, SC+TSO) against an exactly-once ledger and a covered-set wait oracle",
+    technique="property-based testing: generated task-tree programs x generated schedules over the real scheduler (controlled scheduler, SC+TSO) against an exactly-once ledger and a covered-set wait oracle; rapidcheck leg many-groups (one thread feeding up to 2300 task_groups on the free-running library, exactly-once-by-wait-return oracle)",
     level_text="Exploration: generated task trees run on the real work-stealing runtime (workers, mailboxes, FIFO streams, nested waits) while a generated schedule decides every interleaving of atomic operations; a ledger checks started==finished==1 per unit (0 only under a cancelled ancestor), every wait/run_and_wait/parallel_for/execute return is checked against the set of units it must cover, functor copies must all be destroyed at quiescence, and a lost task shows up as an exact DEADLOCK. Sampling, not exhaustive.",
     level_note=DET_NOTE,
 )
